@@ -59,6 +59,9 @@ Definition model_justified_statement : Prop :=
               forall v, MdlSpec p (inputs_after (firstn (S j) ops)) d v ->
                         ~ MdlSpec p (inputs_after (firstn (S i) ops)) d v.
 
+Lemma leaf_or_not : forall m, leaf m \/ ~ leaf m.
+Proof. intro m. unfold leaf. destruct (nkind m); try (left; auto; fail); right; intros [K|K]; discriminate. Qed.
+
 Section Just.
 Variable p : program.
 Variable rk : node -> nat.
@@ -84,10 +87,10 @@ Proof.
 Qed.
 
 (** [L m]: the inputs at the last execution of [m] *)
-Definition GInv (L : node -> inputs) (inp : inputs) (s : state) : Prop :=
+Definition GInv (L : node -> menv) (inp : menv) (s : state) : Prop :=
   BInv p rk inp s /\ forall m i, get_info s m = Some i -> forall d x, obsV i d x -> MSpecI p (L m) d x.
 
-Definition Lnext (L : node -> inputs) (inp' : inputs) (r : opres) : node -> inputs :=
+Definition Lnext (L : node -> menv) (inp' : menv) (r : opres) : node -> menv :=
   fun m => if nmem m (r_execs r) then inp' else L m.
 
 Lemma query_execs_inputs : forall inp n, apply_op inp (OQuery n) = inp.
@@ -96,12 +99,12 @@ Proof. reflexivity. Qed.
 Lemma GInv_step : forall L s o s' r inp,
   GInv L inp s -> op_in_scope o -> step_f fuel pfuel p s o = (s', r) ->
   (forall sets b, o = OSession sets b -> r_out r <> RFuel) ->
-  GInv (Lnext L (apply_op inp o) r) (apply_op inp o) s' /\
+  GInv (Lnext L (env_step inp s o s') r) (env_step inp s o s') s' /\
   (forall m, get_info s m <> None -> get_info s' m <> None) /\
   (forall m, In m (r_execs r) -> get_info s' m <> None).
 Proof.
   intros L s o s' r inp [HB HG] Hsc H Hfuel.
-  pose proof (mstep_inv p rk Hrk Hproj Htgt Hkeys _ _ _ _ _ _ _ HB Hsc H Hfuel) as HB'.
+  pose proof (mstep_inv p rk Hrk Hproj Hkeys _ _ _ _ _ _ _ HB H Hfuel) as HB'.
   split; [split; [exact HB'|]|].
   - destruct o as [sets b|n|w v|].
     + (* session: the entries of the queries are not touched, nothing is executed *)
@@ -114,16 +117,21 @@ Proof.
         inversion H; subst; try (exfalso; eapply Hfuel; eauto; reflexivity).
       intros m i Hi d x Hx. unfold Lnext. cbn [r_execs] in Er |- *. rewrite Er. cbn [nmem existsb].
       destruct (kind_eqb (nkind m) KInput) eqn:Ek.
-      * apply kind_eqb_eq in Ek. exfalso. destruct HB' as [sA HI'].
-        destruct (mi_kind _ _ _ _ _ _ _ HI' m i Hi) as [(_ & _ & K & _)|(K & _)].
+      * apply kind_eqb_eq in Ek. exfalso.
+        destruct (mi_kind _ _ _ _ _ _ _ HB' m i Hi) as [(_ & _ & K & _)|(K & _)].
         -- destruct Hx as [t Hx]. rewrite K in Hx. discriminate.
         -- rewrite Ek in K. discriminate.
       * assert (Hk : nkind m <> KInput) by (intro K; apply kind_eqb_eq in K; congruence).
-        rewrite (commit_other (set_log s []) sets pfuel s1 rs batch s' m Ef Ep Hk) in Hi.
-        eapply HG; eauto.
-    + cbn [apply_op]. unfold step_f in H. cbn [op_in_scope] in Hsc.
+        destruct (leaf_or_not m) as [Kl|Kl].
+        -- exfalso. destruct (mi_kind _ _ _ _ _ _ _ HB' m i Hi) as [(_ & _ & K & _)|(K & _)].
+           ++ destruct Hx as [t Hx]. rewrite K in Hx. discriminate.
+           ++ destruct Kl as [Kl|Kl]; rewrite Kl in K; discriminate.
+        -- assert (Er2 : (if false then fold_left refresh_step (s_ext s1) (s1, batch) else (s1, batch)) = (s1, batch)) by reflexivity.
+           destruct (session_MSess p rk Hrk Hproj inp s sets false s1 rs batch s1 batch s' HB Ef Er2) as [HS2 _].
+           rewrite (MSess_other _ _ _ _ _ _ m HS2 Ep Kl) in Hi. eapply HG; eauto.
+    + cbn [env_step]. unfold step_f in H. cbn [op_in_scope] in Hsc.
       destruct (query_for p None fuel [] CUser None n (set_log s [])) as [[[[o fr] ms] s1]| | |] eqn:Eq.
-      * destruct (root_query p rk Hrk Hproj Htgt Hkeys _ _ _ _ _ _ _ _ HB Hsc Eq) as [HI1 _].
+      * destruct (root_query p rk Hrk Hproj Hkeys _ _ _ _ _ _ _ _ HB Eq) as [HI1 _].
         pose proof (proj1 (mmono_all p fuel) _ _ _ _ _ _ _ _ _ Eq) as HM.
         assert (Er : r_execs r = rev (s_log s1) /\ s' = s1) by (destruct o as [[z|]|]; inversion H; subst; auto).
         destruct Er as [Er ->]. intros m i Hi d x Hx. unfold Lnext. rewrite Er.
@@ -155,6 +163,11 @@ Proof.
     + intros m Hm. destruct (mstep_execs p fuel pfuel _ _ _ _ _ Hsc H Hm) as [[i [Hi Hv]] Hnv]. congruence.
 Qed.
 
+Definition XReads (env : menv) (m d : node) : Prop :=
+  exists e v l, alookup p m = Some e /\ evr (MSpecI p env) e v l /\ In d l.
+Lemma env_step_scope : forall env s o s', op_in_scope o -> env_step env s o s' = (apply_op (fst env) o, snd env).
+Proof. intros [a b] s o s' H. destruct o as [sets r|n|w v|]; cbn in *; [subst r; reflexivity|reflexivity|destruct H|reflexivity]. Qed.
+
 (** [m] was last executed under the inputs [I0], is not executed during the first [i] operations
     and is executed at operation [i] *)
 Lemma just_later : forall ops s inp L i m I0,
@@ -164,8 +177,8 @@ Lemma just_later : forall ops s inp L i m I0,
   get_info s m <> None -> L m = I0 ->
   (forall k, (k < i)%nat -> ~ executed_at (run_history_f fuel pfuel p s ops) k m) ->
   executed_at (run_history_f fuel pfuel p s ops) i m ->
-  exists d, MReads p I0 m d /\
-    forall v, MdlSpec p I0 d v -> ~ MdlSpec p (fold_left apply_op (firstn (S i) ops) inp) d v.
+  exists d, XReads I0 m d /\
+    forall v, MSpecI p I0 d v -> ~ MSpecI p (fold_left apply_op (firstn (S i) ops) (fst inp), snd inp) d v.
 Proof.
   induction ops as [|o rest IH]; intros s inp L i m I0 HGI Hsc Hfuel Hst HL Hno [r [Hr Hm]].
   - destruct i; discriminate.
@@ -177,21 +190,22 @@ Proof.
       destruct o as [sets b|n|w v|].
       * cbn [op_in_scope] in Hsc1. subst b. rewrite (step_f_session_execs _ _ _ _ _ _ _ Es) in Hm. destruct Hm.
       * destruct HGI as [HB HG]. cbn [apply_op]. cbn [op_in_scope] in Hsc1. unfold step_f in Es.
+        assert (Einp : (fst inp, snd inp) = inp) by (destruct inp; reflexivity). rewrite Einp.
         destruct (query_for p None fuel [] CUser None n (set_log s [])) as [[[[o fr] ms] s1]| | |] eqn:Eq;
           try (inversion Es; subst; destruct Hm).
-        destruct (root_query p rk Hrk Hproj Htgt Hkeys _ _ _ _ _ _ _ _ HB Hsc1 Eq) as [HI1 _].
+        destruct (root_query p rk Hrk Hproj Hkeys _ _ _ _ _ _ _ _ HB Eq) as [HI1 _].
         assert (Er : r_execs r = rev (s_log s1)) by (destruct o as [[z|]|]; inversion Es; subst; auto).
         rewrite Er in Hm. apply in_rev in Hm.
         destruct (mi_J _ _ _ _ _ _ _ HI1 m Hm) as [J|(i0 & cal & x & J1 & J2 & J3)]; [exfalso; apply Hst; exact J|].
         assert (Hi0 : get_info s m = Some i0) by exact J1.
-        destruct HB as [sA HI].
+        pose proof HB as HI.
         destruct (mi_kind _ _ _ _ _ _ _ HI m i0 Hi0) as [(_ & _ & K & _)|(_ & e & l & He & Hev & Hl)].
         { destruct J2 as [t J2]. rewrite K in J2. discriminate. }
         exists cal. split.
         -- exists e, (i_value i0), l. split; [exact He|]. split.
-           ++ eapply evr_mono; [exact Hev|]. intros d y _ Hy. apply MdlSpec_MSpecI. rewrite <- HL. exact (HG m i0 Hi0 d y Hy).
+           ++ eapply evr_mono; [exact Hev|]. intros d y _ Hy. rewrite <- HL. exact (HG m i0 Hi0 d y Hy).
            ++ apply Hl. destruct J2 as [t J2]. eapply (mi_obs_fwd _ _ _ _ _ _ _ HI m i0 cal); eauto.
-        -- intros v Hv Hv2. apply MdlSpec_MSpecI in Hv. apply MdlSpec_MSpecI in Hv2.
+        -- intros v Hv Hv2.
            assert (Hx : MSpecI p I0 cal x) by (rewrite <- HL; exact (HG m i0 Hi0 cal x J2)).
            assert (v = x) by (exact (MSpecI_det p I0 cal v x Hv Hx)). subst v. contradiction.
       * destruct Hsc1.
@@ -203,7 +217,10 @@ Proof.
       destruct (GInv_step L s o s' x inp HGI Hsc1 Es Hf0) as (HG' & Hst' & _).
       assert (Hnm : ~ In m (r_execs x)).
       { intro K. apply (Hno 0%nat); [lia|]. exists x. split; [reflexivity|exact K]. }
-      eapply (IH s' (apply_op inp o) (Lnext L (apply_op inp o) x) i m I0); eauto.
+      rewrite (env_step_scope inp s o s' Hsc1) in HG'.
+      change (fold_left apply_op (firstn (S i) rest) (apply_op (fst inp) o), snd inp)
+        with (fold_left apply_op (firstn (S i) rest) (fst (apply_op (fst inp) o, snd inp)), snd (apply_op (fst inp) o, snd inp)).
+      eapply (IH s' (apply_op (fst inp) o, snd inp) (Lnext L (apply_op (fst inp) o, snd inp) x) i m I0); eauto.
       * intros k sets b rk0 Hk Hk1 Hk2. apply (Hfuel (S k) sets b rk0); [lia|exact Hk1|exact Hk2].
       * unfold Lnext. destruct (nmem m (r_execs x)) eqn:Em; [apply nmem_In in Em; contradiction|exact HL].
       * intros k Hk [rk0 [K1 K2]]. apply (Hno (S k)); [lia|]. exists rk0. split; [exact K1|exact K2].
@@ -217,9 +234,9 @@ Lemma just_main : forall ops s inp L i j m,
   executed_at (run_history_f fuel pfuel p s ops) i m -> (j < i)%nat ->
   executed_at (run_history_f fuel pfuel p s ops) j m ->
   (forall k, (j < k < i)%nat -> ~ executed_at (run_history_f fuel pfuel p s ops) k m) ->
-  exists d, MReads p (fold_left apply_op (firstn (S j) ops) inp) m d /\
-    forall v, MdlSpec p (fold_left apply_op (firstn (S j) ops) inp) d v ->
-              ~ MdlSpec p (fold_left apply_op (firstn (S i) ops) inp) d v.
+  exists d, XReads (fold_left apply_op (firstn (S j) ops) (fst inp), snd inp) m d /\
+    forall v, MSpecI p (fold_left apply_op (firstn (S j) ops) (fst inp), snd inp) d v ->
+              ~ MSpecI p (fold_left apply_op (firstn (S i) ops) (fst inp), snd inp) d v.
 Proof.
   induction ops as [|o rest IH]; intros s inp L i j m HGI Hsc Hfuel Hi Hji Hj Hno.
   - destruct Hj as [r [Hr _]]. destruct j; discriminate.
@@ -230,43 +247,66 @@ Proof.
     assert (Hf0 : forall sets b, o = OSession sets b -> r_out x <> RFuel).
     { intros sets b ->. apply (Hfuel 0%nat sets b x); [lia|reflexivity|reflexivity]. }
     destruct (GInv_step L s o s' x inp HGI Hsc1 Es Hf0) as (HG' & Hst' & Hex').
+    rewrite (env_step_scope inp s o s' Hsc1) in HG'.
+    set (inp1 := (apply_op (fst inp) o, snd inp)) in *.
     assert (Hfuel' : forall k sets b rk0, (k < i)%nat -> nth_error rest k = Some (OSession sets b) ->
               nth_error (run_history_f fuel pfuel p s' rest) k = Some rk0 -> r_out rk0 <> RFuel).
     { intros k sets b rk0 Hk Hk1 Hk2. apply (Hfuel (S k) sets b rk0); [lia|exact Hk1|exact Hk2]. }
+    cbn [firstn fold_left].
+    change (fold_left apply_op (firstn i rest) (apply_op (fst inp) o), snd inp)
+      with (fold_left apply_op (firstn i rest) (fst inp1), snd inp1).
     destruct j as [|j].
     + cbn in Hrj. inversion Hrj. subst x. clear Hrj. cbn [firstn fold_left].
-      change (fold_left apply_op (firstn (S i) (o :: rest)) inp) with (fold_left apply_op (firstn i rest) (apply_op inp o)).
+      change (apply_op (fst inp) o, snd inp) with inp1.
       destruct i as [|i].
       * (* executed in the next operation already *)
-        eapply (just_later rest s' (apply_op inp o) (Lnext L (apply_op inp o) rj) 0%nat m (apply_op inp o)); eauto.
+        eapply (just_later rest s' inp1 (Lnext L inp1 rj) 0%nat m inp1); eauto.
         -- unfold Lnext. destruct (nmem m (r_execs rj)) eqn:Em; [reflexivity|]. apply nmem_false in Em. contradiction.
         -- intros k Hk. lia.
         -- exists ri. auto.
-      * eapply (just_later rest s' (apply_op inp o) (Lnext L (apply_op inp o) rj) (S i) m (apply_op inp o)); eauto.
+      * eapply (just_later rest s' inp1 (Lnext L inp1 rj) (S i) m inp1); eauto.
         -- unfold Lnext. destruct (nmem m (r_execs rj)) eqn:Em; [reflexivity|]. apply nmem_false in Em. contradiction.
         -- intros k Hk [rk0 [K1 K2]]. apply (Hno (S k)); [lia|]. exists rk0. split; [exact K1|exact K2].
         -- exists ri. auto.
-    + cbn [nth_error] in Hrj. cbn [firstn fold_left].
-      change (fold_left apply_op (firstn (S i) (o :: rest)) inp) with (fold_left apply_op (firstn i rest) (apply_op inp o)).
+    + cbn [nth_error] in Hrj.
+      change (fold_left apply_op (firstn (S j) rest) (apply_op (fst inp) o), snd inp)
+        with (fold_left apply_op (firstn (S j) rest) (fst inp1), snd inp1).
       destruct i as [|i]; [lia|].
-      eapply (IH s' (apply_op inp o) (Lnext L (apply_op inp o) x) (S i) j m); eauto.
+      eapply (IH s' inp1 (Lnext L inp1 x) (S i) j m); eauto.
       * exists ri. auto.
       * lia.
       * exists rj. auto.
       * intros k Hk [rk0 [K1 K2]]. apply (Hno (S k)); [lia|]. exists rk0. split; [exact K1|exact K2].
 Qed.
+
+(** without external inputs the from-scratch values do not depend on the external part *)
+Lemma XReads_MReads : forall inp xe m d, XReads (inp, xe) m d -> MReads p inp m d.
+Proof.
+  intros inp xe m d (e & v & l & He & Hev & Hd). exists e, v, l. split; [exact He|]. split; [|exact Hd].
+  eapply evr_mono; [exact Hev|]. intros y x Hy Hx. apply MdlSpec_MSpecI.
+  apply (msev_noext p (inp, xe) no_ext Htgt (ERead y) x Hx). intros d0 [<-|[]].
+  eapply Htgt; eauto. eapply evr_reads; eauto.
+Qed.
 End Just.
 
-Lemma GInv_init : forall p rk, GInv p rk (fun _ => []) [] init_state.
-Proof. intros p rk. split; [exists init_state; apply MInv_init|]. intros m i Hi. discriminate. Qed.
+Lemma GInv_init : forall p rk, GInv p rk (fun _ => init_env) init_env init_state.
+Proof. intros p rk. split; [apply (MInv_init p rk noE)|]. intros m i Hi. discriminate. Qed.
 
 Theorem model_justified_g_f : model_justified_g_statement_f.
 Proof.
   intros fuel pfuel p ops i j m Hwf Hsc Hfuel. cbv zeta. intros Hi Hji Hj Hno.
-  destruct (wf_model_g_facts p Hwf) as (rk & Hrk & Hproj & Htgt & Hkeys).
-  unfold inputs_after.
-  eapply (just_main p rk Hrk Hproj Htgt Hkeys fuel pfuel ops init_state [] (fun _ => [])); eauto.
-  apply GInv_init.
+  destruct (wf_model_x_facts p (wf_model_x_of p Hwf)) as (rk & Hrk & Hproj & Hkeys).
+  pose proof (wf_model_g_noext p Hwf) as Htgt.
+  destruct (just_main p rk Hrk Hproj Htgt Hkeys fuel pfuel ops init_state init_env (fun _ => init_env) i j m
+              (GInv_init p rk) Hsc Hfuel Hi Hji Hj Hno) as (d & HR & Hne).
+  unfold inputs_after. cbn [fst snd init_env] in HR, Hne.
+  exists d. split; [eapply XReads_MReads; eauto|].
+  assert (Hdk : nkind d <> KExternal).
+  { destruct HR as (e & v & l & He & Hev & Hd). eapply Htgt; eauto. eapply evr_reads; eauto. }
+  intros v Hv Hv2. apply MdlSpec_MSpecI in Hv. apply MdlSpec_MSpecI in Hv2.
+  eapply (Hne v).
+  - apply (msev_noext p _ _ Htgt (ERead d) v Hv). intros d0 [<-|[]]. exact Hdk.
+  - apply (msev_noext p _ _ Htgt (ERead d) v Hv2). intros d0 [<-|[]]. exact Hdk.
 Qed.
 
 Theorem model_justified_g : model_justified_g_statement.
